@@ -51,7 +51,14 @@ def _one(acc, case):
     obs = repo.call(case)
     acc.ran(case["algo"]); acc.check()
     acc.outcome(obs[:2])
-    for kind, exp, got in judge_partition(case, obs, allow_fewer=(case["algo"] == "multifit")):
+    probs = list(judge_partition(case, obs, allow_fewer=(case["algo"] == "multifit")))
+    if probs and case["algo"] == "ilp":
+        # solver seam: a CBC preprocessing inconsistency is not a prtpy defect (C02 quantifier); re-solve with preprocessing off
+        obs2 = repo.call_ilp_no_preprocess(case)
+        acc.ran("ilp")
+        if not list(judge_partition(case, obs2)):
+            acc.note("solver_inconsistencies"); probs = []
+    for kind, exp, got in probs:
         acc.violation(case["algo"], cfg_str(case), inp_str(case), kind, exp, got, case)
 
 
